@@ -952,7 +952,12 @@ func (g *generator) emit(batch []cmdJ) {
 	}
 	g.ops = append(g.ops, opJ{B: batch})
 	func() {
-		defer func() { recover() }() // a panic of the implementation is reported by Run, not here
+		defer func() {
+			if recover() != nil { // a panic of the implementation is reported by Run, not here
+				g.w.close()
+				g.w = newWorld()
+			}
+		}()
 		g.w.apply(batch)
 	}()
 	g.refresh()
@@ -1066,5 +1071,6 @@ func gen(r *rand.Rand, tier string, i int) input {
 		}
 		g.emit(batch)
 	}
+	g.w.done()
 	return input{Ops: g.ops}
 }
